@@ -50,6 +50,11 @@ def write_evidence(pid, tier, seed, level, coverage, assumptions, wall, nviol):
     with open(path, "w") as f:
         json.dump(doc, f, indent=1, sort_keys=True, default=str)
         f.write("\n")
+    # (a per-tier copy, so that a quick run does not erase what the last thorough run covered)
+    os.makedirs(os.path.join(EVIDENCE_DIR, tier), exist_ok=True)
+    with open(os.path.join(EVIDENCE_DIR, tier, f"{pid}.json"), "w") as f:
+        json.dump(doc, f, indent=1, sort_keys=True, default=str)
+        f.write("\n")
     # validate with the tooling venv (has jsonschema)
     code = (
         "import json,sys,jsonschema;"
